@@ -514,29 +514,46 @@ cleanup:
 
 static int setService(TcpAsyncCtx *tcpCtx, const char *host, unsigned port, const char *user, const char *pass) {
 	int res = KSI_UNKNOWN_ERROR;
+	char *tmpHost = NULL;
+	char *tmpUser = NULL;
+	char *tmpPass = NULL;
 
 	if (tcpCtx == NULL || host == NULL || user == NULL || pass == NULL) {
 		res = KSI_INVALID_ARGUMENT;
 		goto cleanup;
 	}
 
-	if (tcpCtx->host) KSI_free(tcpCtx->host);
-	res = KSI_strdup(host, &tcpCtx->host);
+	/* Make the copies first: a failed allocation must not leave a released string behind. */
+	res = KSI_strdup(host, &tmpHost);
 	if (res != KSI_OK) goto cleanup;
+
+	res = KSI_strdup(user, &tmpUser);
+	if (res != KSI_OK) goto cleanup;
+
+	res = KSI_strdup(pass, &tmpPass);
+	if (res != KSI_OK) goto cleanup;
+
+	KSI_free(tcpCtx->host);
+	tcpCtx->host = tmpHost;
+	tmpHost = NULL;
 
 	tcpCtx->port = port;
 
-	if (tcpCtx->ksi_user) KSI_free(tcpCtx->ksi_user);
-	res = KSI_strdup(user, &tcpCtx->ksi_user);
-	if (res != KSI_OK) goto cleanup;
+	KSI_free(tcpCtx->ksi_user);
+	tcpCtx->ksi_user = tmpUser;
+	tmpUser = NULL;
 
-	if (tcpCtx->ksi_pass) KSI_free(tcpCtx->ksi_pass);
-	res = KSI_strdup(pass, &tcpCtx->ksi_pass);
-	if (res != KSI_OK) goto cleanup;
+	KSI_free(tcpCtx->ksi_pass);
+	tcpCtx->ksi_pass = tmpPass;
+	tmpPass = NULL;
 
 	KSI_LOG_debug(tcpCtx->ctx, "[%p] Async TCP client host: %s:%d", tcpCtx, tcpCtx->host, tcpCtx->port);
 	res = KSI_OK;
 cleanup:
+	KSI_free(tmpHost);
+	KSI_free(tmpUser);
+	KSI_free(tmpPass);
+
 	return res;
 }
 
